@@ -25,6 +25,7 @@ import (
 type concIn struct {
 	DB       int
 	Shard    int
+	Part     string // non-empty: the operation belongs to this partition (one key of the many-keys bucket) instead of a shard
 	Writable bool
 	Ops      []Op
 }
@@ -59,6 +60,9 @@ func txModel() porcupine.Model {
 			for _, op := range history {
 				in := op.Input.(concIn)
 				k := fmt.Sprintf("%d/%d", in.DB, in.Shard)
+				if in.Part != "" {
+					k = fmt.Sprintf("%d/p/%s", in.DB, in.Part)
+				}
 				if _, ok := parts[k]; !ok {
 					keys = append(keys, k)
 				}
@@ -169,6 +173,12 @@ type concCfg struct {
 	KVSetsOnly bool
 	Class      string
 	PreMerge   bool // RAM-mode databases: fill a few segments of an unrelated bucket and Merge once before the workload
+	// AllDeadStart: the databases start with several segments in which every record is dead, and the workers start
+	// only once the first Merge is under way (they queue up on the lock while Merge holds it)
+	AllDeadStart bool
+	// PKeys > 0: a bucket "pb" with that many live keys (each key is its own partition of the checked history):
+	// Merge runs long over many live records while workers overwrite, delete and read single keys of it
+	PKeys int
 }
 
 type yielder struct {
@@ -309,6 +319,7 @@ type concResult struct {
 	finalBad    []string
 	finalReads  int64
 	preMerges   int64
+	pkeyOps     int64
 	orders      map[string]bool
 }
 
@@ -317,10 +328,27 @@ func runConc(c *CaseCtx, cc concCfg) *concResult {
 	res := &concResult{orders: map[string]bool{}}
 	seed := c.Rng.Int63()
 	y := &yielder{p: cc.YieldP, rng: rand.New(rand.NewSource(seed))}
-	nutsdb.VerifSetYieldHook(y.maybe)
+	mergeStarted := make(chan struct{})
+	var mergeStartedOnce sync.Once
+	var removesLeft int32 = -1 // AllDeadStart: data files the first Merge still has to remove before the workers are let go
+	nutsdb.VerifSetYieldHook(func(point string) {
+		if point == "merge.beforeRemove" {
+			// the workers are released when the first Merge is about to remove its LAST segment (the active one): they
+			// queue up on the lock and are the first to get in wherever that Merge lets go of it
+			if atomic.AddInt32(&removesLeft, -1) <= 0 {
+				mergeStartedOnce.Do(func() { close(mergeStarted) })
+			}
+		}
+		y.maybe(point)
+	})
 	nutsdb.VerifSetFSHook(func(op, path string, off int64, b []byte) (bool, int, error) {
-		if op == "write" || op == "sync" {
+		if op == "write" || op == "sync" || op == "syncdir" || op == "remove" {
 			y.maybe("fs." + op)
+		}
+		if op == "syncdir" && cc.AllDeadStart {
+			// a directory sync takes milliseconds on a real disk and none on tmpfs: give the queued workers the time a
+			// real fsync would (it changes nothing unless the lock is not held here)
+			time.Sleep(300 * time.Microsecond)
 		}
 		return false, 0, nil
 	})
@@ -360,6 +388,55 @@ func runConc(c *CaseCtx, cc concCfg) *concResult {
 		}
 	}
 	h := &histRec{t0: time.Now()}
+	if cc.AllDeadStart {
+		for i, db := range dbs {
+			if cc.DBs[i].Mode == 2 {
+				continue
+			}
+			val := make([]byte, int(cc.DBs[i].Seg)/3)
+			for k := 0; k < 7; k++ {
+				db.Update(func(tx *nutsdb.Tx) error { return tx.Put("pre", []byte(fmt.Sprintf("p%d", k%3)), val, 0) })
+			}
+			db.Update(func(tx *nutsdb.Tx) error {
+				for k := 0; k < 3; k++ {
+					tx.Delete("pre", []byte(fmt.Sprintf("p%d", k)))
+				}
+				return nil
+			})
+		}
+	}
+	if cc.AllDeadStart {
+		atomic.StoreInt32(&removesLeft, int32(countDataFiles(c.Dir("db0"))))
+	}
+	pkey := func(i int) []byte { return []byte(fmt.Sprintf("pk%04d", i)) }
+	if cc.PKeys > 0 {
+		// the initial Put of every key is part of the recorded history (one operation per key, all keys of a batch
+		// share the batch transaction's interval)
+		for di, db := range dbs {
+			for base := 0; base < cc.PKeys; base += 25 {
+				call := h.now()
+				var ops []Op
+				err := db.Update(func(tx *nutsdb.Tx) error {
+					for i := base; i < base+25 && i < cc.PKeys; i++ {
+						o := Op{K: "Put", B: "pb", Key: pkey(i), Val: []byte(fmt.Sprintf("init-%d", i))}
+						if r := execOp(tx, o); r.Err {
+							return fmt.Errorf("%s", r.ErrS)
+						}
+						ops = append(ops, o)
+					}
+					return nil
+				})
+				ret := h.now()
+				if err != nil {
+					c.Violate("commit-error:"+errClass(err.Error()), cc.Class, "filling the many-keys bucket failed: "+err.Error())
+					return res
+				}
+				for _, o := range ops {
+					h.add(porcupine.Operation{ClientId: cc.Goroutines + 2, Input: concIn{DB: di, Part: string(o.Key), Writable: true, Ops: []Op{o}}, Call: call, Output: concOut{Res: []Res{{}}, Committed: true}, Return: ret})
+				}
+			}
+		}
+	}
 	var wg sync.WaitGroup
 	var mu sync.Mutex
 	stop := int32(0)
@@ -374,14 +451,38 @@ func runConc(c *CaseCtx, cc concCfg) *concResult {
 			defer wg.Done()
 			r := rand.New(rand.NewSource(seed + int64(g)*7919))
 			ctr := 0
+			if cc.AllDeadStart && cc.Merge > 0 {
+				select {
+				case <-mergeStarted:
+				case <-time.After(50 * time.Millisecond):
+				}
+			}
 			for n := 0; n < cc.TxPerG; n++ {
 				di := r.Intn(len(dbs))
 				db := dbs[di]
 				cfg := cc.DBs[di]
 				shard := r.Intn(cc.Shards)
 				ops, writable := genConcTx(r, shard, cfg.Mode == 0, cc.KVSetsOnly, cfg.Mode != 2, g, &ctr)
+				part := ""
+				if cc.PKeys > 0 && r.Intn(3) != 0 {
+					// a transaction on one key of the many-keys bucket: read it, then (two times in three) overwrite or delete it
+					k := pkey(r.Intn(cc.PKeys))
+					part = string(k)
+					ops = []Op{{K: "Get", B: "pb", Key: k}}
+					writable = r.Intn(3) != 0
+					if writable {
+						if r.Intn(5) == 0 {
+							ops = append(ops, Op{K: "Delete", B: "pb", Key: k})
+						} else {
+							ctr++
+							ops = append(ops, Op{K: "Put", B: "pb", Key: k, Val: []byte(fmt.Sprintf("c%d-%d", g, ctr))})
+						}
+					} else {
+						ops = append(ops, ops[0])
+					}
+				}
 				failFn := writable && r.Intn(12) == 0
-				in := concIn{DB: di, Shard: shard, Writable: writable}
+				in := concIn{DB: di, Shard: shard, Part: part, Writable: writable}
 				out := concOut{}
 				seqVal := -1
 				var panicS string
@@ -392,7 +493,7 @@ func runConc(c *CaseCtx, cc concCfg) *concResult {
 							panicS = fmt.Sprintf("%v", p)
 						}
 					}()
-					if writable {
+					if writable && part == "" {
 						// the shard's sequence key: read, then (with the blind writes) write n+1
 						o := Op{K: "Get", B: shardBucket(shard), Key: []byte("seq")}
 						r0 := execOp(tx, o)
@@ -409,7 +510,7 @@ func runConc(c *CaseCtx, cc concCfg) *concResult {
 						in.Ops = append(in.Ops, o)
 						out.Res = append(out.Res, execOp(tx, o))
 					}
-					if writable {
+					if writable && part == "" {
 						o := Op{K: "Put", B: shardBucket(shard), Key: []byte("seq"), Val: []byte(strconv.Itoa(seqVal + 1))}
 						in.Ops = append(in.Ops, o)
 						out.Res = append(out.Res, execOp(tx, o))
@@ -443,6 +544,9 @@ func runConc(c *CaseCtx, cc concCfg) *concResult {
 				}
 				h.add(porcupine.Operation{ClientId: g, Input: in, Call: call, Output: out, Return: ret})
 				atomic.AddInt64(&txCount, 1)
+				if part != "" {
+					atomic.AddInt64(&res.pkeyOps, 1)
+				}
 				// snapshot stability of read-only transactions
 				if !writable {
 					half := len(out.Res) / 2
@@ -454,7 +558,7 @@ func runConc(c *CaseCtx, cc concCfg) *concResult {
 						}
 					}
 				}
-				if out.Committed {
+				if out.Committed && part == "" {
 					mu.Lock()
 					k := strconv.Itoa(shard)
 					if seqSeen[di][k] == nil {
@@ -584,6 +688,31 @@ func runConc(c *CaseCtx, cc concCfg) *concResult {
 				continue
 			}
 			h.add(porcupine.Operation{ClientId: client, Input: in, Call: call, Output: out, Return: h.now()})
+			res.finalReads++
+		}
+		if cc.PKeys > 0 {
+			// every key of the many-keys bucket, read in one transaction; recorded as one operation per key
+			var rs []Res
+			call := h.now()
+			func() {
+				defer func() {
+					if p := recover(); p != nil {
+						res.panics = append(res.panics, fmt.Sprintf("final read of the many-keys bucket: %v", p))
+						rs = nil
+					}
+				}()
+				db.View(func(tx *nutsdb.Tx) error {
+					for i := 0; i < cc.PKeys; i++ {
+						rs = append(rs, execOp(tx, Op{K: "Get", B: "pb", Key: pkey(i)}))
+					}
+					return nil
+				})
+			}()
+			ret := h.now()
+			for i, r := range rs {
+				o := Op{K: "Get", B: "pb", Key: pkey(i)}
+				h.add(porcupine.Operation{ClientId: client, Input: concIn{DB: di, Part: string(o.Key), Ops: []Op{o}}, Call: call, Output: concOut{Res: []Res{r}}, Return: ret})
+			}
 			res.finalReads++
 		}
 	}
